@@ -10,7 +10,15 @@ import (
 	"github.com/pkg/errors"
 )
 
-var ErrKeyNotFound = errors.New("Key not found")
+// modelErr: plain error values (the real library builds its sentinels with pkg/errors.New, which records a stack
+// trace; callers only compare them with ==).
+type modelErr string
+
+func (e modelErr) Error() string { return string(e) }
+
+var ErrKeyNotFound error = modelErr("Key not found")
+
+var _ = errors.New // the model may import only packages the real library imports
 
 type Options struct {
 	Dir, ValueDir     string
@@ -174,7 +182,7 @@ func (txn *Txn) Get(key []byte) (*Item, error) {
 
 func (txn *Txn) Set(key, val []byte) error {
 	if !txn.update {
-		return errors.New("No sets or deletes are allowed in a read-only transaction")
+		return modelErr("No sets or deletes are allowed in a read-only transaction")
 	}
 	// as documented: "The current transaction keeps a reference to the key and val byte slice arguments.
 	// Users must not modify key and val until the end of the transaction."  No copy is taken.
@@ -184,7 +192,7 @@ func (txn *Txn) Set(key, val []byte) error {
 
 func (txn *Txn) Delete(key []byte) error {
 	if !txn.update {
-		return errors.New("No sets or deletes are allowed in a read-only transaction")
+		return modelErr("No sets or deletes are allowed in a read-only transaction")
 	}
 	txn.ops = append(txn.ops, op{del: true, k: key}) // keeps a reference to key (documented)
 	return nil
